@@ -475,6 +475,26 @@ def _debug_helpers(I, ci, args):
     return None
 
 
+# ------------------------------------------------------------------ process standard streams
+@model('_print', 'io::_print', 'std::io::_print', 'stdio::_print')
+def _io_print(I, ci, a):
+    """print!/println!: the text goes to the path's standard-output log; library code must leave it empty (C13)"""
+    try:
+        I.world.stdout.extend(render_arguments(I, a))
+    except Unsupported:
+        I.world.stdout.append(ord('?'))
+    return UNIT
+
+
+@model('_eprint', 'io::_eprint', 'std::io::_eprint', 'stdio::_eprint')
+def _io_eprint(I, ci, a):
+    try:
+        I.world.stderr.extend(render_arguments(I, a))
+    except Unsupported:
+        I.world.stderr.append(ord('?'))
+    return UNIT
+
+
 # ------------------------------------------------------------------ panics
 @model('panic_fmt', 'panicking::panic_fmt')
 def _panic_fmt(I, ci, a):
